@@ -164,6 +164,11 @@ func c05Sig(f [2]string) string {
 		if i := strings.Index(f[1], "XML: "); i >= 0 {
 			sig += ":" + strings.ReplaceAll(c05Digits.Replace(f[1][i+5:]), " ", "_")
 		}
+	case "zip-unique":
+		// detail: "duplicate zip entry <name>"
+		if len(w) > 3 {
+			sig += ":" + c05Digits.Replace(w[3])
+		}
 	case "ct-cover":
 		// detail: "part <name> …"
 		if strings.HasPrefix(f[1], "part  ") {
@@ -200,6 +205,8 @@ func c05RunHistory(r *Run, d *c05Drv, hist []string, rec bool, label string) map
 	defer h.c05Close()
 	sigs := map[string]string{}
 	inherited := map[string]bool{} // conjuncts already failing in the opened input package
+	rejectedEdit := false          // a row/column edit answered with an error since the workbook was created/opened
+	copiedOver := false            // CopySheet replaced the content of a worksheet since then
 	for i, line := range hist {
 		op := strings.Fields(line)[0]
 		res := c05Exec(h, line)
@@ -215,6 +222,18 @@ func c05RunHistory(r *Run, d *c05Drv, hist []string, rec bool, label string) map
 				for _, f := range v.fails {
 					inherited[f[0]] = true
 				}
+			}
+		}
+		switch op {
+		case "h.new", "h.open", "h.openbytes":
+			rejectedEdit, copiedOver = false, false
+		case "h.copysheet":
+			if res == "ok" {
+				copiedOver = true
+			}
+		case "h.insrows", "h.inscols", "h.rmrow", "h.rmcol", "h.duprow", "h.duprowto":
+			if res == "ERR" {
+				rejectedEdit = true
 			}
 		}
 		if rec {
@@ -272,6 +291,14 @@ func c05RunHistory(r *Run, d *c05Drv, hist []string, rec bool, label string) map
 		}
 		for _, f := range v.fails {
 			sig := c05Sig(f)
+			if f[0] == "calc-chain" && rejectedEdit {
+				// a rejected row/column edit is not atomic (its own finding): keep it apart from a
+				// calcChain that goes stale under accepted edits
+				sig += ":after-rejected-row-col-edit"
+			} else if f[0] == "calc-chain" && copiedOver {
+				// CopySheet does not drop the chain entries of the worksheet it overwrites (its own finding)
+				sig += ":after-copysheet"
+			}
 			if inherited[f[0]] {
 				// the input fixture already violates this conjunct: not attributable to the library
 				if rec {
